@@ -6,10 +6,13 @@
 //	                a channel send/receive/select.  The package must provide
 //	                verifYield(int) and verifYieldB(int) bool (see props/wg_lib.py, which adds
 //	                them to the scratch copy only).
-//	-ir OUT.v       a Gallina term (GT.Base.ConcIR) listing, for the functions named by -funcs,
-//	                the shared-memory operations with the branch structure between them; local
-//	                computation is dropped, local identifiers are renamed v0,v1,.. in order of
-//	                first binding so that a rename of a local does not change the term.
+//	-ir OUT.v       a Gallina term of type GT.Base.ConcIR.prog: for the functions named by
+//	                -funcs the body re-stated statement by statement in the IR of ConcIR.v
+//	                (expressions, definitions, assignments, close, if/else, `for { }`, return;
+//	                anything else becomes EUnknown / SOther, which denote "stuck"); local
+//	                identifiers are renamed v0,v1,.. in order of first binding (receiver = recv)
+//	                so that a rename of a local does not change the term.  ConcIR.v gives the
+//	                term a small-step denotation; the check compiles gen_prog = hand_prog.
 //
 // Both outputs come from the same walk, so the site ids of the instrumented code and of the IR
 // coincide: site = 100*code(function) + index of the site inside the function (source order);
@@ -27,26 +30,9 @@ import (
 	"go/printer"
 	"go/token"
 	"os"
-	"sort"
 	"strconv"
 	"strings"
 )
-
-type opT struct {
-	kind  string // Gallina constructor text
-	field string
-}
-
-func (o opT) gallina() string {
-	switch o.kind {
-	case "OClose", "OMake", "ORecv", "OSend":
-		return o.kind
-	case "OCallM":
-		return "OCallM " + gstr(o.field)
-	default:
-		return "OAtomic " + o.kind + " " + gstr(o.field)
-	}
-}
 
 func gstr(s string) string { return "\"" + strings.ReplaceAll(s, "\"", "\"\"") + "\"" }
 
@@ -57,12 +43,19 @@ var atomicMethods = map[string]string{
 var mutexMethods = map[string]string{
 	"Lock": "ALock", "Unlock": "AUnlock", "RLock": "ARLock", "RUnlock": "ARUnlock", "TryLock": "ATryLock",
 }
+var convNames = map[string]bool{
+	"int": true, "int8": true, "int16": true, "int32": true, "int64": true,
+	"uint": true, "uint8": true, "uint16": true, "uint32": true, "uint64": true, "uintptr": true,
+}
+var binops = map[token.Token]string{
+	token.ADD: "BAdd", token.SUB: "BSub", token.EQL: "BEq", token.NEQ: "BNe", token.LSS: "BLt",
+	token.LEQ: "BLe", token.GTR: "BGt", token.GEQ: "BGe", token.LAND: "BAnd", token.LOR: "BOr",
+}
 
 type xl struct {
 	fset        *token.FileSet
 	atomicField map[string]bool // field name -> is sync/atomic typed
 	mutexField  map[string]bool
-	methods     map[string]bool // method names declared in the file (OCallM)
 	recv        string
 	fnCode      int
 	nsite       int
@@ -111,82 +104,59 @@ func (x *xl) collectFields(f *ast.File) {
 		}
 		return true
 	})
-	for _, d := range f.Decls {
-		if fd, ok := d.(*ast.FuncDecl); ok && fd.Recv != nil {
-			x.methods[fd.Name.Name] = true
-		}
-	}
 }
 
-// opsOf lists the shared-memory operations inside an expression / simple statement, in
-// source order.  Function literals are not entered (an operation inside one is an error).
-func (x *xl) opsOf(n ast.Node) []opT {
-	var ops []opT
+// sharedOp reports whether the call is an atomic / mutex method on a field of such a type.
+func (x *xl) sharedOp(e *ast.CallExpr) (kind, field string, ok bool) {
+	sel, isSel := e.Fun.(*ast.SelectorExpr)
+	if !isSel {
+		return "", "", false
+	}
+	inner, isInner := sel.X.(*ast.SelectorExpr)
+	if !isInner {
+		return "", "", false
+	}
+	if k, found := atomicMethods[sel.Sel.Name]; found && x.atomicField[inner.Sel.Name] {
+		return k, inner.Sel.Name, true
+	}
+	if k, found := mutexMethods[sel.Sel.Name]; found && x.mutexField[inner.Sel.Name] {
+		return k, inner.Sel.Name, true
+	}
+	return "", "", false
+}
+
+// needsSite: does the node contain a shared-memory operation (atomic/mutex method, close,
+// channel send/receive)?  Function literals are not entered (an operation inside one is an
+// error).
+func (x *xl) needsSite(n ast.Node) bool {
 	if n == nil {
-		return nil
+		return false
 	}
-	type posOp struct {
-		pos token.Pos
-		op  opT
-	}
-	var found []posOp
+	found := false
 	ast.Inspect(n, func(m ast.Node) bool {
 		switch e := m.(type) {
 		case *ast.FuncLit:
-			if len(x.opsOf(e.Body)) > 0 {
+			if x.needsSite(e.Body) {
 				x.errs = append(x.errs, fmt.Sprintf("%s: shared-memory operation inside a function literal", x.fset.Position(e.Pos())))
 			}
 			return false
 		case *ast.CallExpr:
-			if id, ok := e.Fun.(*ast.Ident); ok {
-				if id.Name == "close" {
-					found = append(found, posOp{e.Pos(), opT{"OClose", ""}})
-				}
-				if id.Name == "make" && len(e.Args) > 0 {
-					if _, ok := e.Args[0].(*ast.ChanType); ok {
-						found = append(found, posOp{e.Pos(), opT{"OMake", ""}})
-					}
-				}
+			if id, ok := e.Fun.(*ast.Ident); ok && id.Name == "close" {
+				found = true
 			}
-			if sel, ok := e.Fun.(*ast.SelectorExpr); ok {
-				// recv.field.Method(...)
-				if inner, ok := sel.X.(*ast.SelectorExpr); ok {
-					if k, ok := atomicMethods[sel.Sel.Name]; ok && x.atomicField[inner.Sel.Name] {
-						found = append(found, posOp{e.Rparen, opT{k, inner.Sel.Name}})
-					}
-					if k, ok := mutexMethods[sel.Sel.Name]; ok && x.mutexField[inner.Sel.Name] {
-						found = append(found, posOp{e.Rparen, opT{k, inner.Sel.Name}})
-					}
-				}
-				// recv.Method(...) of the same type
-				if id, ok := sel.X.(*ast.Ident); ok && id.Name == x.recv && x.recv != "" && x.methods[sel.Sel.Name] {
-					found = append(found, posOp{e.Rparen, opT{"OCallM", sel.Sel.Name}})
-				}
+			if _, _, ok := x.sharedOp(e); ok {
+				found = true
 			}
 		case *ast.UnaryExpr:
 			if e.Op == token.ARROW {
-				found = append(found, posOp{e.Pos(), opT{"ORecv", ""}})
+				found = true
 			}
 		case *ast.SendStmt:
-			found = append(found, posOp{e.Arrow, opT{"OSend", ""}})
+			found = true
 		}
 		return true
 	})
-	sort.SliceStable(found, func(i, j int) bool { return found[i].pos < found[j].pos })
-	for _, f := range found {
-		ops = append(ops, f.op)
-	}
-	return ops
-}
-
-// a yield site is needed when the operations contain something other than make / method calls
-func needsSite(ops []opT) bool {
-	for _, o := range ops {
-		if o.kind != "OMake" && o.kind != "OCallM" {
-			return true
-		}
-	}
-	return false
+	return found
 }
 
 func (x *xl) newSite() int {
@@ -209,62 +179,13 @@ func yieldCond(site int, cond ast.Expr) ast.Expr {
 	return &ast.BinaryExpr{X: y, Op: token.LAND, Y: &ast.ParenExpr{X: cond}}
 }
 
-// text renders a node with local identifiers renamed.
-func (x *xl) text(n ast.Node) string {
+func (x *xl) src(n ast.Node) string {
 	if n == nil {
 		return ""
 	}
 	var buf bytes.Buffer
 	_ = printer.Fprint(&buf, x.fset, n)
-	src := buf.String()
-	// re-parse as expression/statement is overkill: rename by token scan
-	var out strings.Builder
-	i := 0
-	for i < len(src) {
-		c := src[i]
-		if c == '_' || (c >= 'a' && c <= 'z') || (c >= 'A' && c <= 'Z') {
-			j := i
-			for j < len(src) && (src[j] == '_' || (src[j] >= 'a' && src[j] <= 'z') || (src[j] >= 'A' && src[j] <= 'Z') || (src[j] >= '0' && src[j] <= '9')) {
-				j++
-			}
-			w := src[i:j]
-			prevDot := i > 0 && src[i-1] == '.'
-			if r, ok := x.rename[w]; ok && !prevDot {
-				// a composite-literal key `name:` is a field, not a local
-				k := j
-				for k < len(src) && src[k] == ' ' {
-					k++
-				}
-				if k < len(src) && src[k] == ':' && (k+1 >= len(src) || src[k+1] != '=') {
-					out.WriteString(w)
-				} else {
-					out.WriteString(r)
-				}
-			} else {
-				out.WriteString(w)
-			}
-			i = j
-			continue
-		}
-		if c == '"' || c == '`' { // string literal: copy verbatim
-			j := i + 1
-			for j < len(src) && src[j] != c {
-				if src[j] == '\\' && c == '"' {
-					j++
-				}
-				j++
-			}
-			if j < len(src) {
-				j++
-			}
-			out.WriteString(src[i:j])
-			i = j
-			continue
-		}
-		out.WriteByte(c)
-		i++
-	}
-	return strings.Join(strings.Fields(out.String()), " ")
+	return strings.Join(strings.Fields(buf.String()), " ")
 }
 
 func (x *xl) bind(names ...*ast.Ident) {
@@ -278,27 +199,6 @@ func (x *xl) bind(names ...*ast.Ident) {
 	}
 }
 
-func (x *xl) bindStmt(s ast.Stmt) {
-	switch t := s.(type) {
-	case *ast.AssignStmt:
-		if t.Tok == token.DEFINE {
-			for _, l := range t.Lhs {
-				if id, ok := l.(*ast.Ident); ok {
-					x.bind(id)
-				}
-			}
-		}
-	case *ast.DeclStmt:
-		if gd, ok := t.Decl.(*ast.GenDecl); ok {
-			for _, sp := range gd.Specs {
-				if vs, ok := sp.(*ast.ValueSpec); ok {
-					x.bind(vs.Names...)
-				}
-			}
-		}
-	}
-}
-
 func gsite(site int) string {
 	if site < 0 {
 		return "None"
@@ -306,15 +206,111 @@ func gsite(site int) string {
 	return "(Some " + strconv.Itoa(site) + ")"
 }
 
-func gops(ops []opT) string {
-	parts := make([]string, len(ops))
-	for i, o := range ops {
-		parts[i] = o.gallina()
+func glist(items []string) string { return "[" + strings.Join(items, ";\n ") + "]" }
+
+func gz(s string) string {
+	if strings.HasPrefix(s, "-") {
+		return "(" + s + ")%Z"
 	}
-	return "[" + strings.Join(parts, "; ") + "]"
+	return s + "%Z"
 }
 
-func glist(items []string) string { return "[" + strings.Join(items, ";\n ") + "]" }
+// expr renders an expression in the IR.
+func (x *xl) expr(e ast.Expr) string {
+	switch t := e.(type) {
+	case nil:
+		return "(EUnknown \"\")"
+	case *ast.ParenExpr:
+		return x.expr(t.X)
+	case *ast.Ident:
+		if r, ok := x.rename[t.Name]; ok {
+			return "(EVar " + gstr(r) + ")"
+		}
+		switch t.Name {
+		case "true", "false", "nil", "iota":
+			return "(EUnknown " + gstr(t.Name) + ")"
+		}
+		return "(EGlobal " + gstr(t.Name) + ")"
+	case *ast.BasicLit:
+		if t.Kind == token.INT {
+			if _, err := strconv.ParseInt(t.Value, 0, 64); err == nil {
+				v, _ := strconv.ParseInt(t.Value, 0, 64)
+				return "(EInt " + gz(strconv.FormatInt(v, 10)) + ")"
+			}
+		}
+		return "(EUnknown " + gstr(t.Value) + ")"
+	case *ast.UnaryExpr:
+		switch t.Op {
+		case token.AND:
+			if cl, ok := t.X.(*ast.CompositeLit); ok {
+				return x.newStruct(cl)
+			}
+			return "(EAddr " + x.expr(t.X) + ")"
+		case token.NOT:
+			return "(ENot " + x.expr(t.X) + ")"
+		case token.SUB:
+			if bl, ok := t.X.(*ast.BasicLit); ok && bl.Kind == token.INT {
+				if v, err := strconv.ParseInt(bl.Value, 0, 64); err == nil {
+					return "(EInt " + gz(strconv.FormatInt(-v, 10)) + ")"
+				}
+			}
+			return "(EBin BSub (EInt 0%Z) " + x.expr(t.X) + ")"
+		}
+		return "(EUnknown " + gstr(x.src(t)) + ")"
+	case *ast.StarExpr:
+		return "(EDeref " + x.expr(t.X) + ")"
+	case *ast.BinaryExpr:
+		if o, ok := binops[t.Op]; ok {
+			return "(EBin " + o + " " + x.expr(t.X) + " " + x.expr(t.Y) + ")"
+		}
+		return "(EUnknown " + gstr(x.src(t)) + ")"
+	case *ast.SelectorExpr:
+		if id, ok := t.X.(*ast.Ident); ok {
+			if _, local := x.rename[id.Name]; !local || id.Name == x.recv {
+				// a package-qualified name or a plain (non-atomic) read of a receiver field
+				return "(EUnknown " + gstr(x.src(t)) + ")"
+			}
+		}
+		return "(EField " + x.expr(t.X) + " " + gstr(t.Sel.Name) + ")"
+	case *ast.CallExpr:
+		if k, f, ok := x.sharedOp(t); ok {
+			args := make([]string, len(t.Args))
+			for i, a := range t.Args {
+				args[i] = x.expr(a)
+			}
+			return "(EAtomic " + k + " " + gstr(f) + " [" + strings.Join(args, "; ") + "])"
+		}
+		if id, ok := t.Fun.(*ast.Ident); ok {
+			if convNames[id.Name] && len(t.Args) == 1 {
+				return "(EConv " + x.expr(t.Args[0]) + ")"
+			}
+			if id.Name == "make" && len(t.Args) >= 1 {
+				if _, ok := t.Args[0].(*ast.ChanType); ok {
+					return "EMake"
+				}
+			}
+		}
+		return "(EUnknown " + gstr(x.src(t)) + ")"
+	}
+	return "(EUnknown " + gstr(x.src(e)) + ")"
+}
+
+func (x *xl) newStruct(cl *ast.CompositeLit) string {
+	ty := x.src(cl.Type)
+	var fs []string
+	for _, el := range cl.Elts {
+		kv, ok := el.(*ast.KeyValueExpr)
+		if !ok {
+			return "(EUnknown " + gstr(x.src(cl)) + ")"
+		}
+		k, ok := kv.Key.(*ast.Ident)
+		if !ok {
+			return "(EUnknown " + gstr(x.src(cl)) + ")"
+		}
+		fs = append(fs, "("+gstr(k.Name)+", "+x.expr(kv.Value)+")")
+	}
+	return "(ENew " + gstr(ty) + " [" + strings.Join(fs, "; ") + "])"
+}
 
 // block walks a statement list: returns the instrumented list and the IR terms.
 func (x *xl) block(list []ast.Stmt) ([]ast.Stmt, []string) {
@@ -329,12 +325,29 @@ func (x *xl) block(list []ast.Stmt) ([]ast.Stmt, []string) {
 	return out, ir
 }
 
+// sited allocates a site for a statement containing a shared-memory operation and returns
+// the yield statement to put before it.
+func (x *xl) sited(n ast.Node, inElse bool, what string) (int, []ast.Stmt) {
+	if !x.needsSite(n) {
+		return -1, nil
+	}
+	site := x.newSite()
+	if inElse {
+		x.errs = append(x.errs, fmt.Sprintf("%s: %s with an operation in else-if position", x.fset.Position(n.Pos()), what))
+	}
+	return site, []ast.Stmt{yieldStmt(site)}
+}
+
 // stmt handles one statement.  inElse = the statement is the `else if` of an if chain (no
 // statement can be inserted before it).  Returns the rewritten statement, statements to put
-// before it, and its IR terms (empty when it contains nothing of interest).
+// before it, and its IR terms.
 func (x *xl) stmt(s ast.Stmt, inElse bool) (ast.Stmt, []ast.Stmt, []string) {
+	other := func(site int, n ast.Node) []string {
+		return []string{"SOther " + gsite(site) + " " + gstr(x.src(n))}
+	}
 	switch t := s.(type) {
 	case *ast.BlockStmt:
+		// a bare block: flattened (scoping of its locals is not modelled)
 		l, ir := x.block(t.List)
 		t.List = l
 		return t, nil, ir
@@ -344,20 +357,24 @@ func (x *xl) stmt(s ast.Stmt, inElse bool) (ast.Stmt, []ast.Stmt, []string) {
 		return t, pre, ir
 	case *ast.IfStmt:
 		if t.Init != nil {
-			x.bindStmt(t.Init)
+			site, pre := x.sited(t, inElse, "if with init")
+			text := other(site, t)
+			body, _ := x.block(t.Body.List)
+			t.Body.List = body
+			if t.Else != nil {
+				ne, _, _ := x.stmt(t.Else, true)
+				t.Else = ne
+			}
+			return t, pre, text
 		}
-		ops := append(x.opsOf(t.Init), x.opsOf(t.Cond)...)
+		cond := x.expr(t.Cond)
 		site := -1
 		var pre []ast.Stmt
-		condText := x.text(t.Cond)
-		if needsSite(ops) {
+		if x.needsSite(t.Cond) {
 			site = x.newSite()
 			if !inElse {
 				pre = append(pre, yieldStmt(site))
 			} else {
-				if len(x.opsOf(t.Init)) > 0 {
-					x.errs = append(x.errs, fmt.Sprintf("%s: else-if with an operation in its init statement", x.fset.Position(t.Pos())))
-				}
 				t.Cond = yieldCond(site, t.Cond)
 			}
 		}
@@ -369,174 +386,148 @@ func (x *xl) stmt(s ast.Stmt, inElse bool) (ast.Stmt, []ast.Stmt, []string) {
 			t.Else = ne
 			irElse = ire
 		}
-		if site < 0 && len(ops) == 0 && len(irThen) == 0 && len(irElse) == 0 {
-			return t, pre, nil
-		}
-		term := "SIf " + gsite(site) + " " + gops(ops) + " " + gstr(condText) + "\n (" + glist(irThen) + ")\n (" + glist(irElse) + ")"
+		term := "SIf " + gsite(site) + " " + cond + "\n (" + glist(irThen) + ")\n (" + glist(irElse) + ")"
 		return t, pre, []string{term}
 	case *ast.ForStmt:
-		if t.Init != nil {
-			x.bindStmt(t.Init)
-			if needsSite(x.opsOf(t.Init)) {
-				x.errs = append(x.errs, fmt.Sprintf("%s: operation in a for-init statement", x.fset.Position(t.Pos())))
-			}
+		if t.Init == nil && t.Cond == nil && t.Post == nil {
+			body, irBody := x.block(t.Body.List)
+			t.Body.List = body
+			return t, nil, []string{"SLoop\n (" + glist(irBody) + ")"}
 		}
-		if t.Post != nil && needsSite(x.opsOf(t.Post)) {
-			x.errs = append(x.errs, fmt.Sprintf("%s: operation in a for-post statement", x.fset.Position(t.Pos())))
+		if x.needsSite(t.Init) || x.needsSite(t.Post) {
+			x.errs = append(x.errs, fmt.Sprintf("%s: operation in a for-init/post statement", x.fset.Position(t.Pos())))
 		}
-		ops := x.opsOf(t.Cond)
-		condText := x.text(t.Cond)
 		site := -1
-		if needsSite(ops) {
+		text := x.src(t)
+		if x.needsSite(t.Cond) {
 			site = x.newSite()
 			t.Cond = yieldCond(site, t.Cond)
 		}
-		body, irBody := x.block(t.Body.List)
+		body, _ := x.block(t.Body.List)
 		t.Body.List = body
-		if site < 0 && len(ops) == 0 && len(irBody) == 0 {
-			return t, nil, nil
-		}
-		return t, nil, []string{"SLoop " + gsite(site) + " " + gops(ops) + " " + gstr(condText) + "\n (" + glist(irBody) + ")"}
+		return t, nil, []string{"SOther " + gsite(site) + " " + gstr(text)}
 	case *ast.RangeStmt:
-		if needsSite(x.opsOf(t.X)) {
+		if x.needsSite(t.X) {
 			x.errs = append(x.errs, fmt.Sprintf("%s: operation in a range expression", x.fset.Position(t.Pos())))
 		}
-		x.bind(identOf(t.Key), identOf(t.Value))
-		body, irBody := x.block(t.Body.List)
+		text := x.src(t)
+		body, _ := x.block(t.Body.List)
 		t.Body.List = body
-		if len(irBody) == 0 {
-			return t, nil, nil
-		}
-		return t, nil, []string{"SLoop None [] " + gstr("range "+x.text(t.X)) + "\n (" + glist(irBody) + ")"}
-	case *ast.SwitchStmt:
-		if t.Init != nil {
-			x.bindStmt(t.Init)
-		}
-		ops := append(x.opsOf(t.Init), x.opsOf(t.Tag)...)
+		return t, nil, []string{"SOther None " + gstr(text)}
+	case *ast.SwitchStmt, *ast.TypeSwitchStmt:
+		text := x.src(t)
 		site := -1
 		var pre []ast.Stmt
-		if needsSite(ops) {
-			if inElse {
-				x.errs = append(x.errs, fmt.Sprintf("%s: unsupported position of a switch with operations", x.fset.Position(t.Pos())))
-			}
-			site = x.newSite()
-			pre = append(pre, yieldStmt(site))
-		}
-		var cases []string
-		any := false
-		for _, c := range t.Body.List {
-			cc := c.(*ast.CaseClause)
-			for _, e := range cc.List {
-				if needsSite(x.opsOf(e)) {
-					x.errs = append(x.errs, fmt.Sprintf("%s: operation in a case expression", x.fset.Position(e.Pos())))
+		if sw, ok := t.(*ast.SwitchStmt); ok {
+			hdr := x.needsSite(sw.Init) || x.needsSite(sw.Tag)
+			if hdr {
+				site = x.newSite()
+				if inElse {
+					x.errs = append(x.errs, fmt.Sprintf("%s: unsupported position of a switch with operations", x.fset.Position(t.Pos())))
 				}
+				pre = append(pre, yieldStmt(site))
 			}
-			body, ir := x.block(cc.Body)
-			cc.Body = body
-			if len(ir) > 0 {
-				any = true
+			for _, c := range sw.Body.List {
+				cc := c.(*ast.CaseClause)
+				for _, e := range cc.List {
+					if x.needsSite(e) {
+						x.errs = append(x.errs, fmt.Sprintf("%s: operation in a case expression", x.fset.Position(e.Pos())))
+					}
+				}
+				body, _ := x.block(cc.Body)
+				cc.Body = body
 			}
-			var lbl []string
-			for _, e := range cc.List {
-				lbl = append(lbl, x.text(e))
-			}
-			cases = append(cases, "("+gstr(strings.Join(lbl, ", "))+", "+glist(ir)+")")
 		}
-		if site < 0 && len(ops) == 0 && !any {
-			return t, pre, nil
-		}
-		return t, pre, []string{"SSwitch " + gsite(site) + " " + gops(ops) + " " + gstr(x.text(t.Tag)) + "\n " + glist(cases)}
+		return t, pre, []string{"SOther " + gsite(site) + " " + gstr(text)}
 	case *ast.SelectStmt:
+		text := x.src(t)
 		site := x.newSite()
-		var pre []ast.Stmt
 		if inElse {
 			x.errs = append(x.errs, fmt.Sprintf("%s: unsupported position of a select", x.fset.Position(t.Pos())))
 		}
-		pre = append(pre, yieldStmt(site))
-		var cases []string
 		for _, c := range t.Body.List {
 			cc := c.(*ast.CommClause)
-			if cc.Comm != nil {
-				x.bindStmt(cc.Comm)
-			}
-			ops := x.opsOf(cc.Comm)
-			body, ir := x.block(cc.Body)
+			body, _ := x.block(cc.Body)
 			cc.Body = body
-			cases = append(cases, "("+gops(ops)+", "+gstr(x.text(cc.Comm))+", "+glist(ir)+")")
 		}
-		return t, pre, []string{"SSelect " + gsite(site) + "\n " + glist(cases)}
+		return t, []ast.Stmt{yieldStmt(site)}, []string{"SOther " + gsite(site) + " " + gstr(text)}
 	case *ast.ReturnStmt:
-		var ops []opT
-		var texts []string
-		for _, r := range t.Results {
-			ops = append(ops, x.opsOf(r)...)
-			texts = append(texts, x.text(r))
+		site, pre := x.sited(t, inElse, "return")
+		if len(t.Results) == 1 {
+			return t, pre, []string{"SReturn " + gsite(site) + " " + x.expr(t.Results[0])}
 		}
-		site := -1
-		var pre []ast.Stmt
-		if needsSite(ops) {
-			site = x.newSite()
-			if inElse {
-				x.errs = append(x.errs, "return in else position")
-			}
-			pre = append(pre, yieldStmt(site))
-		}
-		return t, pre, []string{"SReturn " + gsite(site) + " " + gops(ops) + " " + gstr(strings.Join(texts, ", "))}
-	case *ast.BranchStmt:
-		switch t.Tok {
-		case token.BREAK:
-			return t, nil, []string{"SBreak"}
-		case token.CONTINUE:
-			return t, nil, []string{"SContinue"}
-		}
-		return t, nil, nil
+		return t, pre, other(site, t)
 	case *ast.DeferStmt:
-		ops := x.opsOf(t.Call)
-		if len(ops) == 0 {
-			return t, nil, nil
-		}
-		// the deferred operation runs at function exit; it is listed, not sited
-		if needsSite(ops) {
+		if x.needsSite(t.Call) {
 			x.errs = append(x.errs, fmt.Sprintf("%s: deferred shared-memory operation (not sited)", x.fset.Position(t.Pos())))
 		}
-		return t, nil, []string{"SDefer " + gops(ops) + " " + gstr(x.text(t.Call))}
+		return t, nil, other(-1, t)
 	case *ast.GoStmt:
-		if len(x.opsOf(t.Call)) > 0 {
+		if x.needsSite(t.Call) {
 			x.errs = append(x.errs, fmt.Sprintf("%s: go statement with operations", x.fset.Position(t.Pos())))
 		}
+		return t, nil, other(-1, t)
+	case *ast.AssignStmt:
+		site, pre := x.sited(t, inElse, "assignment")
+		if len(t.Lhs) == 1 && len(t.Rhs) == 1 {
+			rhs := x.expr(t.Rhs[0]) // rendered before the left-hand side is bound
+			switch t.Tok {
+			case token.DEFINE:
+				if id, ok := t.Lhs[0].(*ast.Ident); ok && id.Name != "_" {
+					x.bind(id)
+					return t, pre, []string{"SDefine " + gsite(site) + " " + gstr(x.rename[id.Name]) + " " + rhs}
+				}
+			case token.ASSIGN:
+				switch l := t.Lhs[0].(type) {
+				case *ast.Ident:
+					if r, ok := x.rename[l.Name]; ok {
+						return t, pre, []string{"SAssign " + gsite(site) + " (LVar " + gstr(r) + ") " + rhs}
+					}
+				case *ast.SelectorExpr:
+					if id, ok := l.X.(*ast.Ident); ok && id.Name != x.recv {
+						if r, ok := x.rename[id.Name]; ok {
+							return t, pre, []string{"SAssign " + gsite(site) + " (LField " + gstr(r) + " " + gstr(l.Sel.Name) + ") " + rhs}
+						}
+					}
+				}
+			}
+		}
+		text := other(site, t)
+		if t.Tok == token.DEFINE {
+			for _, l := range t.Lhs {
+				if id, ok := l.(*ast.Ident); ok {
+					x.bind(id)
+				}
+			}
+		}
+		return t, pre, text
+	case *ast.DeclStmt:
+		text := other(-1, t)
+		if gd, ok := t.Decl.(*ast.GenDecl); ok {
+			for _, sp := range gd.Specs {
+				if vs, ok := sp.(*ast.ValueSpec); ok {
+					if x.needsSite(vs) {
+						x.errs = append(x.errs, fmt.Sprintf("%s: operation in a var declaration", x.fset.Position(t.Pos())))
+					}
+					x.bind(vs.Names...)
+				}
+			}
+		}
+		return t, nil, text
+	case *ast.ExprStmt:
+		site, pre := x.sited(t, inElse, "expression statement")
+		if call, ok := t.X.(*ast.CallExpr); ok {
+			if id, ok := call.Fun.(*ast.Ident); ok && id.Name == "close" && len(call.Args) == 1 {
+				return t, pre, []string{"SClose " + gsite(site) + " " + x.expr(call.Args[0])}
+			}
+		}
+		return t, pre, []string{"SExpr " + gsite(site) + " " + x.expr(t.X)}
+	case *ast.EmptyStmt:
 		return t, nil, nil
 	default:
-		// simple statement
-		x.bindStmtLate(s)
-		ops := x.opsOf(s)
-		if len(ops) == 0 {
-			x.bindStmt(s)
-			return s, nil, nil
-		}
-		site := -1
-		var pre []ast.Stmt
-		if needsSite(ops) {
-			site = x.newSite()
-			if inElse {
-				x.errs = append(x.errs, "simple statement in else position")
-			}
-			pre = append(pre, yieldStmt(site))
-		}
-		x.bindStmt(s)
-		return s, pre, []string{"SOps " + gsite(site) + " " + gops(ops) + " " + gstr(x.text(s))}
+		site, pre := x.sited(s, inElse, "statement")
+		return s, pre, other(site, s)
 	}
-}
-
-// bindStmtLate exists so that `x := f(x)` style rebinding keeps the old name on the right:
-// names are bound before the text is rendered only for fresh definitions (no-op here; the
-// binding happens in bindStmt just before rendering so both sides use the same renaming).
-func (x *xl) bindStmtLate(ast.Stmt) {}
-
-func identOf(e ast.Expr) *ast.Ident {
-	if id, ok := e.(*ast.Ident); ok {
-		return id
-	}
-	return nil
 }
 
 func main() {
@@ -561,10 +552,9 @@ func main() {
 			codeOf[p[0]] = n
 		}
 	}
-	x := &xl{fset: fset, atomicField: map[string]bool{}, mutexField: map[string]bool{}, methods: map[string]bool{}}
+	x := &xl{fset: fset, atomicField: map[string]bool{}, mutexField: map[string]bool{}}
 	x.collectFields(f)
 	irOf := map[string]string{}
-	nsites := map[string]int{}
 	next := 10
 	for _, d := range f.Decls {
 		fd, ok := d.(*ast.FuncDecl)
@@ -583,9 +573,13 @@ func main() {
 			x.recv = fd.Recv.List[0].Names[0].Name
 			x.rename[x.recv] = "recv"
 		}
+		var params []string
 		if fd.Type.Params != nil {
 			for _, p := range fd.Type.Params.List {
 				x.bind(p.Names...)
+				for _, n := range p.Names {
+					params = append(params, gstr(x.rename[n.Name]))
+				}
 			}
 		}
 		body, terms := x.block(fd.Body.List)
@@ -594,8 +588,7 @@ func main() {
 		if fd.Recv == nil {
 			key = "func " + key
 		}
-		irOf[key] = glist(terms)
-		nsites[key] = x.nsite
+		irOf[key] = "Func " + gstr(fd.Name.Name) + " [" + strings.Join(params, "; ") + "]\n " + glist(terms)
 	}
 	if len(x.errs) > 0 {
 		for _, e := range x.errs {
@@ -618,19 +611,19 @@ func main() {
 	if *ir != "" {
 		var b strings.Builder
 		b.WriteString("(* generated by xlate_conc from " + *src + " - do not edit *)\n")
-		b.WriteString("From Coq Require Import List String.\nFrom GT Require Import Base.ConcIR.\nImport ListNotations.\nLocal Open Scope string_scope.\n\n")
-		b.WriteString("Definition " + *name + " : list func :=\n[")
+		b.WriteString("From Coq Require Import List String ZArith.\nFrom GT Require Import Base.ConcIR.\nImport ListNotations.\nLocal Open Scope string_scope.\n\n")
+		b.WriteString("Definition " + *name + " : prog :=\n[")
 		first := true
 		for _, fn := range strings.Split(*funcs, ",") {
 			t, ok := irOf[fn]
 			if !ok {
-				t = "[SMissing]"
+				t = "Func " + gstr(fn) + " [] [SOther None \"missing\"]"
 			}
 			if !first {
 				b.WriteString(";\n")
 			}
 			first = false
-			b.WriteString("(" + gstr(fn) + ",\n " + t + ")")
+			b.WriteString(t)
 		}
 		b.WriteString("].\n")
 		if err := os.WriteFile(*ir, []byte(b.String()), 0o644); err != nil {
